@@ -3,7 +3,10 @@ package props
 import (
 	"fmt"
 	"math/rand"
+	"regexp"
+	"strconv"
 	"strings"
+	"verif/internal/llvmref"
 
 	"github.com/llir/llvm/ir"
 	"github.com/llir/llvm/ir/enum"
@@ -342,6 +345,7 @@ func genC16(ctx *fw.Ctx) []fw.Case {
 		i := i
 		cases = append(cases, fw.Case{ID: fmt.Sprintf("universe/%d", i), Run: func(r *fw.Rec) { c16Universe(r, i) }})
 	}
+	cases = append(cases, fw.Case{ID: "number-spellings", Run: c16NumberSpellings})
 	return cases
 }
 
@@ -540,6 +544,17 @@ func c16ParseBack(r *fw.Rec, u *tuniverse, ds []*tdesc, A []types.Type, keys []s
 		r.Inconclusive("printing the universe module panics (reported under C03): " + firstLine(pp))
 		return
 	}
+	// the same types with their numbers (array and vector lengths, address
+	// spaces) spelled as u0x hexadecimal literals, which LLVM reads alike
+	// (LLVM's reading of such numbers is established on a probe declaration: the
+	// universe itself holds types LLVM has no use for, e.g. label parameters)
+	if out, _, ok, err := llvmref.Reading("declare void @f([u0x10 x i8], <u0x4 x i32>, i8 addrspace(u0x2)*, <vscale x u0x2 x i8>)\n"); err == nil && ok &&
+		strings.Contains(out, "declare void @f([16 x i8], <4 x i32>, i8 addrspace(2)*, <vscale x 2 x i8>)") {
+		if hexText := c16HexNumbers(text, r.Ctx().Rand("c16hex")); hexText != text {
+			text = hexText
+			r.Tally("parse-back", "type numbers respelled in hexadecimal")
+		}
+	}
 	m2, perr, pmsg := parseGuard("c16", text)
 	if pmsg != "" || perr != nil {
 		what := pmsg
@@ -607,4 +622,101 @@ func c16ParseBack(r *fw.Rec, u *tuniverse, ds []*tdesc, A []types.Type, keys []s
 	}
 	r.Eval(cnt * len(ds))
 	r.TallyN("checks", "parsed_vs_constructed_pairs", cnt*len(ds))
+}
+
+var reTypeNumber = regexp.MustCompile(`(\[|<|<vscale x |addrspace\()([0-9]+)( x |\))`)
+
+// c16HexNumbers respells a PRNG half of the array lengths, vector lengths and
+// address spaces of a module text as u0x literals.
+func c16HexNumbers(text string, rng *rand.Rand) string {
+	return reTypeNumber.ReplaceAllStringFunc(text, func(tok string) string {
+		m := reTypeNumber.FindStringSubmatch(tok)
+		n, err := strconv.ParseUint(m[2], 10, 64)
+		if err != nil || rng.Intn(2) == 0 {
+			return tok
+		}
+		return fmt.Sprintf("%su0x%X%s", m[1], n, m[3])
+	})
+}
+
+// c16NumberSpellings: the numbers inside types (array length, vector length,
+// address space) in every spelling LLVM reads (decimal, zero-padded decimal,
+// u0x upper/lower case) must give the type LLVM reads: equal to the type built
+// from the number, and unequal to the types of the neighbouring numbers.
+func c16NumberSpellings(r *fw.Rec) {
+	nums := []uint64{0, 1, 7, 9, 10, 15, 16, 17, 31, 32, 99, 100, 255, 256, 4096, 65535}
+	spell := func(n uint64) []string {
+		return []string{fmt.Sprint(n), fmt.Sprintf("0%d", n), fmt.Sprintf("u0x%X", n), fmt.Sprintf("u0x%x", n), fmt.Sprintf("u0x0%X", n)}
+	}
+	type probe struct {
+		text string
+		want types.Type
+		n    uint64
+		kind string
+	}
+	var probes []probe
+	for _, n := range nums {
+		for _, sp := range spell(n) {
+			probes = append(probes, probe{fmt.Sprintf("[%s x i8]", sp), types.NewArray(n, types.I8), n, "arr"})
+			if n > 0 && n <= 4096 {
+				probes = append(probes, probe{fmt.Sprintf("<%s x i8>", sp), types.NewVector(n, types.I8), n, "vec"})
+				sv := types.NewVector(n, types.I8)
+				sv.Scalable = true
+				probes = append(probes, probe{fmt.Sprintf("<vscale x %s x i8>", sp), sv, n, "svec"})
+			}
+			pt := types.NewPointer(types.I8)
+			pt.AddrSpace = types.AddrSpace(n)
+			probes = append(probes, probe{fmt.Sprintf("i8 addrspace(%s)*", sp), pt, n, "ptr"})
+		}
+	}
+	var sb strings.Builder
+	for i, p := range probes {
+		fmt.Fprintf(&sb, "declare void @f%d(%s)\n", i, p.text)
+	}
+	text := sb.String()
+	lout, _, ok, err := llvmref.Reading(text)
+	if err != nil || !ok {
+		r.Inconclusive("LLVM does not accept the number-spelling probes")
+		return
+	}
+	llvmType := map[string]string{}
+	for _, l := range strings.Split(lout, "\n") {
+		if strings.HasPrefix(l, "declare void @f") {
+			name := l[len("declare void @"):strings.Index(l, "(")]
+			llvmType[name] = l[strings.Index(l, "(")+1 : strings.LastIndex(l, ")")]
+		}
+	}
+	m, perr, pmsg := parseGuard("c16-numbers", text)
+	if pmsg != "" || perr != nil {
+		what := pmsg
+		if perr != nil {
+			what = perr.Error()
+		}
+		r.Violate(fw.Violation{Key: "number-spelling-rejected", Input: text, What: "types with numbers in a spelling LLVM reads are rejected: " + firstLine(what)})
+		return
+	}
+	got := map[string]types.Type{}
+	for _, f := range m.Funcs {
+		if len(f.Params) == 1 {
+			got[f.GlobalName] = f.Params[0].Typ
+		}
+	}
+	for i, p := range probes {
+		name := fmt.Sprintf("f%d", i)
+		t := got[name]
+		r.Eval(1)
+		if t == nil {
+			continue
+		}
+		if llvmType[name] != p.want.String() {
+			r.Inconclusive("LLVM reads a probe differently from the monitor's expectation (model at fault): " + p.text)
+			continue
+		}
+		if !t.Equal(p.want) || !p.want.Equal(t) || t.String() != p.want.String() {
+			r.Violate(fw.Violation{Key: "number-spelling/" + p.kind, Input: "declare void @f(" + p.text + ")",
+				What: fmt.Sprintf("the type written `%s` (LLVM: %s) is parsed as %s, which is not equal to %s", p.text, llvmType[name], t, p.want)})
+			continue
+		}
+		r.Nontrivial("number-spelling:" + p.text)
+	}
 }
